@@ -232,6 +232,9 @@ class UmModel:
 	# ---- control commands ---------------------------------------------------------------
 	def on_ctrl(self, T, data, now):
 		"""Returns None (no response expected) or a dict describing the expected response."""
+		if len(data) > 1024:
+			# longer than any L1 composes (trxcon's TRXC buffer is 1024 octets): may be truncated
+			return {"hostile": "overlong"}
 		try:
 			parsed = rc.parse_cmd(data)
 		except UnicodeDecodeError:
@@ -256,6 +259,9 @@ class UmModel:
 			if argc >= 4:
 				if not numeric:
 					return {"hostile": "non-numeric", "verb": verb, "args": args}
+				if not 0 <= ints[0] <= 63:
+					# HSN outside 0..63 has no meaning (TS 45.002): rejected or ignored, never applied
+					return {"hostile": "hsn-range", "verb": verb, "args": args}
 				pairs = [(ints[i] * 1000, ints[i + 1] * 1000) for i in range(2, len(ints) - 1, 2)]
 				T.fh = (ints[0], ints[1], pairs)
 				self.probe("setfh-%s" % ("long" if len(pairs) > 8 else "short"))
@@ -496,6 +502,7 @@ class Monitor:
 		self.seg_inds = []        # clock indications since the clock thread last went to sleep
 		self.seg_tick = None      # (fn, expected link owners) of the tick in this segment
 		self.clock_thread = None
+		self.t_now = None
 
 	def bad(self, clause, **detail):
 		if len(self.viols) < 6:
@@ -511,6 +518,7 @@ class Monitor:
 
 	def feed(self, ev):
 		t, kind, kw = ev
+		self.t_now = t
 		m = self.m
 		if kind == "recv":
 			port = kw["port"]
@@ -574,6 +582,8 @@ class Monitor:
 		exp = self.pending_rsp.pop(port)
 		if exp.get("none") or exp.get("hostile"):
 			return
+		if self.t_now is not None and self.t_now - exp["t"] < exp["delay_ns"]:
+			return  # the configured response delay has not elapsed yet
 		self.bad("ctrl.no-response", trx=exp["T"].label(), verb=exp["verb"], args=exp["args"][:6])
 
 	def _on_tx(self, t, kw):
@@ -932,6 +942,7 @@ class Monitor:
 	# ---------------------------------------------------------------------------------
 	def finish(self, t_end, threads_dead):
 		m = self.m
+		self.t_now = t_end
 		for port in list(self.pending_rsp):
 			self._rsp_missing(port)
 		self._close_seg()
